@@ -10,6 +10,7 @@ import collections
 import concurrent.futures
 import faulthandler
 import json
+import signal
 import multiprocessing
 import os
 import subprocess
@@ -85,6 +86,13 @@ def innermost_rig_frame(exc):
     return found
 
 
+RUN_WALL_LIMIT = {"quick": 60, "thorough": 240}
+
+
+def is_wall(viol):
+    return bool(viol) and (viol.get("signature") or {}).get("kind") == "WALL"
+
+
 def raised_by(exc):
     """Who raised an exception that escaped an engine: walking from the
     innermost frame outwards, skipping library frames, the first frame that is
@@ -115,6 +123,21 @@ def execute(engine, prop, tier, tape, index=0, known=None, keep_trace=400):
     out.seed = tape.seed
     out.harness_error = None
     out.info = None
+    # wall-clock watchdog: a loop inside rig that never reaches a seam (so
+    # that the simulator's own step budgets cannot stop it) is interrupted
+    # and reported as non-termination instead of hanging the check
+    limit = int(os.environ.get("VERIF_WALL_LIMIT", 0) or
+                RUN_WALL_LIMIT.get(tier, 300))
+
+    def _on_alarm(signum, frame):
+        raise SimAbort("WALL", "still running after %d s of wall-clock "
+                       "time" % limit)
+    old_handler = None
+    try:
+        old_handler = signal.signal(signal.SIGALRM, _on_alarm)
+        signal.setitimer(signal.ITIMER_REAL, limit)
+    except (ValueError, AttributeError):     # not the main thread
+        old_handler = None
     try:
         out.info = engine.run(world, tier, prop)
     except Violation as v:
@@ -139,6 +162,10 @@ def execute(engine, prop, tier, tape, index=0, known=None, keep_trace=400):
         elif who != "rig":
             out.harness_error = "".join(traceback.format_exception(
                 type(e), e, e.__traceback__))[-4000:]
+    finally:
+        if old_handler is not None:
+            signal.setitimer(signal.ITIMER_REAL, 0)
+            signal.signal(signal.SIGALRM, old_handler)
     v = world.violation
     out.violation = None if v is None else {
         "monitor": v.monitor, "message": v.message, "signature": v.signature}
@@ -221,6 +248,9 @@ def _chunk_worker(args):
                 d["trace"] = None
                 d["ops"] = None
         results.append(d)
+        if is_wall(d.get("violation")):
+            # every further run of this kind would cost the full wall limit
+            break
     faulthandler.cancel_dump_traceback_later()
     return results
 
@@ -482,10 +512,16 @@ def main(argv=None):
                 try:
                     for d in f.result():
                         results[d["index"]] = d
+                        if is_wall(d.get("violation")):
+                            # a hang was found: finish what is in flight
+                            pending_chunks.clear()
+                            truncated = True
                 except Exception as e:  # worker died / timed out
-                    print("HARNESS-ERROR: worker failed: %r" % (e,))
+                    missing = [i for i in indices if i not in results]
+                    rc = hunt_crash(engine, engine_name, prop, tier,
+                                    args.seed, missing, known, repr(e))
                     sys.stdout.flush()
-                    os._exit(2)
+                    os._exit(rc)
 
     ordered = [results[i] for i in sorted(results)]
     if args.digests:
@@ -524,9 +560,13 @@ def main(argv=None):
             seen_monitors.add(mon)
             if reported >= 3:
                 break
-            segs, out, nshrink = shrink(engine, prop, tier, d["segments"],
-                                        mon, known,
-                                        budget_s=plan.get("shrink_s", 60))
+            if is_wall(d["violation"]):
+                # (every shrinking attempt would hang for the wall limit)
+                segs, out, nshrink = d["segments"], None, 0
+            else:
+                segs, out, nshrink = shrink(
+                    engine, prop, tier, d["segments"], mon, known,
+                    budget_s=plan.get("shrink_s", 60))
             if out is None:
                 # could not reproduce in-process: still report, unshrunk
                 out_d = d
@@ -626,9 +666,54 @@ def main(argv=None):
     return exit_code
 
 
+def hunt_crash(engine, engine_name, prop, tier, verif_seed, indices, known,
+               why, budget_s=150.0):
+    """A worker process died.  Re-run the runs that have no result one at a
+    time in forked children until one of them kills its child: that run is
+    the violation (the interpreter died inside the code under test).  If none
+    does within the budget it stays a harness error."""
+    t0 = time.time()
+    for i in indices:
+        if time.time() - t0 > budget_s:
+            break
+        seed = derive_seed(verif_seed, prop, i)
+        o = execute_isolated(engine, prop, tier, Tape(seed=seed), index=i,
+                             known=known, keep_trace=120)
+        if o.harness_error == "isolated run died without a result":
+            rp = os.path.join(VERIF, "replays", "%s-CRASH-%s.json"
+                              % (prop, seed))
+            viol = {"monitor": "CRASH", "message":
+                    "the interpreter died (no exception, no result) while "
+                    "run %d was executing the code under test" % i,
+                    "signature": {"kind": "process-died"}}
+            write_evidence(rp, {"property": prop, "engine": engine_name,
+                                "kind": "crash", "tier": tier,
+                                "run_seed": str(seed), "run_index": i,
+                                "verif_seed": verif_seed, "violation": viol,
+                                "rig_commit": rig_commit()[0]})
+            print("VIOLATION property=%s replay=%s" % (prop, rp))
+            print("  monitor=CRASH %s" % viol["message"])
+            return 1
+    print("HARNESS-ERROR: worker failed: %s" % why)
+    return 2
+
+
 def replay(engine, prop, path, known):
     with open(path) as f:
         doc = json.load(f)
+    if doc.get("kind") == "crash":
+        from .seams import rig_module
+        for mname in getattr(engine, "RIG_MODULES", []):
+            rig_module(mname)
+        o = execute_isolated(engine, prop, doc.get("tier", "quick"),
+                             Tape(seed=int(doc["run_seed"])), known=[])
+        if o.harness_error == "isolated run died without a result":
+            print("VIOLATION property=%s replay=%s" % (prop, path))
+            print("  monitor=CRASH the interpreter died again "
+                  "REPRODUCED-EXACTLY")
+            return 1
+        print("REPLAY: the run completed (recorded: CRASH)")
+        return 0
     if doc.get("kind") == "preflight-import":
         err = preflight(engine)
         if err is None:
